@@ -248,9 +248,31 @@ class StrKind:
                     in_else = any(child is st for st in p.orelse)
                     if (neg and in_body) or (not neg and in_else):
                         return True
+                # a repo predicate that IMPLIES "not a keyword": `def f(name): return not iskeyword(name) and ...`, tested positively
+                core = t.operand if neg else t
+                if isinstance(core, ast.Call) and isinstance(core.func, ast.Name) and len(core.args) == 1 and norm(core.args[0]) == norm(expr) \
+                        and self._implies_not_keyword(core.func.id, module):
+                    in_body = any(child is st for st in p.body)
+                    in_else = any(child is st for st in p.orelse)
+                    if (not neg and in_body) or (neg and in_else):
+                        return True
             child = p
             p = module.parent(p)
         return False
+
+    def _implies_not_keyword(self, fname: str, module: ModuleInfo) -> bool:
+        r = self.repo.resolve_global(module, fname)
+        fn = getattr(r, "node", None) if getattr(r, "kind", None) == "func" else None
+        if not isinstance(fn, ast.FunctionDef) or not fn.args.args:
+            return False
+        p0 = fn.args.args[0].arg
+        rets = [x for x in ast.walk(fn) if isinstance(x, ast.Return) and x.value is not None]
+        if len(rets) != 1:
+            return False
+        v = rets[0].value
+        conj = v.values if isinstance(v, ast.BoolOp) and isinstance(v.op, ast.And) else [v]
+        return any(isinstance(c, ast.UnaryOp) and isinstance(c.op, ast.Not) and norm(c.operand) in (f"iskeyword({p0})", f"keyword.iskeyword({p0})")
+                   for c in conj)
 
     def template_kind(self, js: ast.JoinedStr, fctx, module, depth) -> Kinds:
         out: Set[str] = set()
